@@ -111,7 +111,7 @@ def describe(tier):
             'quick': 'producer arrays of 2 cells (3 for statistic-driven consumers), representations masked / nomask / plain ndarray, float64 (masked producers also int64 / uint64, alone and mixed); consumers: every data command, 1-3 inputs for n-ary forms incl. the single-input form, the same producer listed twice; every option value',
             'thorough': 'adds 4 inputs, mixed representations and int64/float64 mixes',
         },
-        'outside': ['IEEE rounding', 'hard masks', 'I/O commands (C17/C18)', 'values stored under missing cells may change (they are not part of the visible result)'],
+        'outside': ['IEEE rounding', 'hard masks', 'unsigned data above 2^20, 8/16/32-bit element types', 'I/O commands (C17/C18)', 'values stored under missing cells may change (they are not part of the visible result)'],
         'assumptions': D.STUBS + ['A-pre: fuzzy-flagged producers lie in [-1,1] at non-missing cells (the in-place clamp of a shared single input is a no-op only under this documented precondition)',
                                   'shared buffers: views (.data, .mask, rows, reduce() returning its only element, numpy.ma.asarray views) alias the producer cells in symnp exactly as in numpy; validated per path'],
     }
